@@ -157,3 +157,24 @@ LEVEL_TEXT += _ADD21
 _ADD22 = ' Borrowed: R13.3 (dialect cache slots per format and specialisation).'
 EXPLANATION += _ADD22
 LEVEL_TEXT += _ADD22
+
+
+_run_before_r5 = run
+
+
+def run(repo, rep, tier):  # noqa: F811 -- round-5 shape rules appended to the rules above
+    _run_before_r5(repo, rep, tier)
+    if getattr(rep, "borrowed", False):
+        return
+    from ..core import round5 as _r5
+    _r5.override_consulted_first(repo, rep, "R06.14")
+    _r5.loop_freshness(repo, rep, "R11.11")
+    rep.floor("R11.11", 13)
+
+
+_ADDR5B = ' Borrowed: R11.11 (no stale loop variable in the generator modules).'
+EXPLANATION += _ADDR5B
+LEVEL_TEXT += _ADDR5B
+_ADDR5C = ' Borrowed: R06.14 (the override look-up comes first in the packer / unpacker / schema creators).'
+EXPLANATION += _ADDR5C
+LEVEL_TEXT += _ADDR5C
